@@ -1,4 +1,5 @@
 import TinyFlux.Audit.Tool
 import TinyFlux.Props.C14
 import TinyFlux.Props.C14State
+import TinyFlux.Props.C14Witness
 #audit TinyFlux.Props.C14
